@@ -88,9 +88,6 @@ Print Assumptions c05_encodings_agree.
 (* non-vacuity: a 3 x 4 CSR matrix with an empty row satisfies the hypotheses *)
 Definition c05_ex : comp :=
   {| ptr := [0; 3; 3; 6]; idx := [1; 2; 3; 0; 1; 3]; dat := [1; 2; 3; 8; 9; 11]%Z |}.
-<<<<<<< HEAD
-(* c05_example_wf: being rewritten (its proof script ran away) *)
-=======
 Example c05_example_wf : wf_csr c05_ex 3 4 /\ no_dup_minor c05_ex.
 Proof.
   split.
@@ -105,7 +102,6 @@ Proof.
     + apply NoDup_nil.
     + repeat (apply NoDup_cons; [cbn [In]; lia|]). apply NoDup_nil.
 Qed.
->>>>>>> agent-sparse
 Example c05_example_blocks :
   iterate_csr c05_ex 3 4 2 =
   Ok [(0, 2, [[0; 1; 2; 3]; [0; 0; 0; 0]]%Z); (2, 3, [[8; 9; 0; 11]]%Z)] /\
